@@ -42,11 +42,16 @@ def ty_is_wire(ty):
 
 
 class Taint:
-    def __init__(self, fx):
+    def __init__(self, fx, roots=None, ty_pred=None, skip_prefixes=('security::', 'ros2::')):
+        """roots None: the receive path (C06). Otherwise explicit root fn keys and a predicate deciding which
+        local/parameter types carry untrusted content (e.g. the read path over cached changes, C09)."""
         self.fx = fx
         self.cg = fx.callgraph()
-        roots = []
-        for b in fx.bodies:
+        self.ty_pred = ty_pred or ty_is_wire
+        self.skip_prefixes = skip_prefixes
+        explicit = roots
+        roots = list(roots or [])
+        for b in (fx.bodies if explicit is None else []):
             if b.key in ENTRY_PATTERNS:
                 roots.append(b.key)
             if b.name in ('from_pl_cdr_bytes', 'from_parameter_list') and b.kind in ('fn', 'assoc_fn'):
@@ -75,7 +80,7 @@ class Taint:
             if x[0] == 'param' and x[1] in tp:
                 return True
             if x[0] == 'call':
-                if READER_CALL_RE.search(x[1]) or x[1].endswith('Reader::read_value') or x[1].endswith('Cursor::position') or 'read_from_stream_unbuffered' in x[1]:
+                if READER_CALL_RE.search(x[1]) or x[1].endswith('Reader::read_value') or x[1].endswith('Cursor::position') or 'read_from_stream' in x[1] or 'read_from_buffer' in x[1]:
                     return True
             if x[0] == 'captured':
                 continue
@@ -85,7 +90,7 @@ class Taint:
         s = set()
         for i in range(1, b.argc + 1):
             ty = b.locals[i] if i < len(b.locals) else ''
-            if ty_is_wire(ty):
+            if self.ty_pred(ty):
                 s.add(i)
         return s
 
@@ -140,7 +145,7 @@ class Taint:
         for x in term_leaves(term):
             if x[0] == 'local':
                 ty = b.locals[x[1]] if x[1] < len(b.locals) else ''
-                if ty_is_wire(ty):
+                if self.ty_pred(ty):
                     return True
         return False
 
@@ -153,7 +158,7 @@ class Taint:
         fx = self.fx
         for k in sorted(self.reach):
             for b in fx.by_key.get(k, []):
-                if b.key.startswith(('security::', 'ros2::')):
+                if b.key.startswith(self.skip_prefixes):
                     continue
                 og = self.og(b)
                 counters = defaultdict(int)
@@ -189,11 +194,20 @@ class Taint:
                     elif last in INDEX_FNS and ('slice' in r or 'Vec' in r or 'Bytes' in r or 'BitVec' in r or 'Index' in (t['f'].get('def') or '') or 'Cursor' in r or 'Buf' in r or 'str' in r or 'array' in r):
                         if 'BTree' in r or 'HashMap' in r or 'HashSet' in r:
                             continue
+                        hit = False
                         for i in range(1, len(args)):
                             ta, ty = arg_info(i)
                             if ta is not None and self.tainted(b, ta) and ty and any(x in ty for x in ('usize', 'u32', 'u64', 'Range', 'i32', 'i64')):
                                 yield site('K3-index', last, bb, ta, ty)
+                                hit = True
                                 break
+                        if not hit and last in ('index', 'index_mut', 'split_at', 'split_to', 'split_off', 'slice', 'advance') and len(args) >= 2:
+                            # a constant (partial) index into a container whose length the sender decides
+                            tc, _tyc = arg_info(0)
+                            ti, tyi = arg_info(1)
+                            if tc is not None and self.tainted(b, tc) and tyi and 'RangeFull' not in tyi and \
+                                    any(x in tyi for x in ('usize', 'Range')) and not self.tainted(b, ti):
+                                yield site('K3-cindex', last, bb, ti, tyi)
                     elif last == 'range' and ('BTreeMap' in r or 'BTreeSet' in r):
                         ta, ty = arg_info(1)
                         if ta is not None and self.tainted(b, ta):
